@@ -28,7 +28,7 @@ META = {
     "text": "Server: every command number 0..255 x handle class {open file, open dir, closed, garbage, "
             "empty} x path class {file, dir, missing, non-UTF-8}, argument grids for the 19 known "
             "requests, every extended tag incl. check-file ranges past EOF, every truncation of each "
-            "well-formed body, and BFS over all histories of a 13-request alphabet (depth 3 quick / 4 "
+            "well-formed body, and BFS over all histories of a 13-request alphabet (depth 5 quick / 7 "
             "thorough, merged on handle tables + file-system projection): exactly one response, same "
             "id, type allowed for the request, strictly well-formed, STATUS!=OK for invalid handles and "
             "unsupported operations, next request still answered.  Client: all programs of <=3 (quick) / "
@@ -67,21 +67,51 @@ def mkfs(root):
     os.symlink("f", os.path.join(root, "ln"))
 
 
+def fs_fingerprint(root):
+    """Everything a request of the alphabet could have changed (names, modes, owners, sizes, times,
+    contents of the two small files, link target)."""
+    out = []
+    for rel in ("", "d"):
+        out.append(tuple(sorted(os.listdir(os.path.join(root, rel)))))
+    for rel in ("", "f", "g", "d"):
+        st = os.lstat(os.path.join(root, rel))
+        out.append((st.st_mode, st.st_uid, st.st_gid, st.st_size, st.st_mtime_ns))
+    for rel in ("f", "g"):
+        with open(os.path.join(root, rel), "rb") as f:
+            out.append(f.read())
+    out.append(os.readlink(os.path.join(root, "ln")))
+    return out
+
+
 class Scratch:
-    """One scratch base per worker process; every session gets a fresh sub-directory."""
+    """One scratch base per worker process.  A session gets a pristine tree: the previous one is
+    reused only if its fingerprint is unchanged, otherwise it is rebuilt."""
 
     def __init__(self):
         self.base = tempfile.mkdtemp(prefix="c30-", dir="/dev/shm")
         self.n = 0
+        self.spare = None
+        self.pristine = None
 
     def fresh(self):
+        if self.spare is not None:
+            root, self.spare = self.spare, None
+            return root
         self.n += 1
         root = os.path.join(self.base, "r%d" % self.n)
         mkfs(root)
+        self.pristine = fs_fingerprint(root)
         return root
 
     def drop(self, root):
-        shutil.rmtree(root, ignore_errors=True)
+        try:
+            same = fs_fingerprint(root) == self.pristine
+        except OSError:
+            same = False
+        if same and self.spare is None:
+            self.spare = root
+        else:
+            shutil.rmtree(root, ignore_errors=True)
 
     def close(self):
         shutil.rmtree(self.base, ignore_errors=True)
@@ -286,7 +316,8 @@ def run_probe(scr, acc, label, t, tag, hc, build, body_override=None, argclass="
     finally:
         scr.drop(root)
     acc.ev()
-    replay = {"part": "probe", "type": t, "body": body.hex()}
+    replay = {"part": "probe", "type": t, "tag": tag, "hc": hc, "argclass": argclass,
+              "body": body.hex(), "label": label}
     # the prelude must have produced the handles the probe uses (harness sanity, not the property)
     got = [ses.responses[i + 1] for i in range(4)]
     want = [(T.HANDLE, R.u32(1) + R.sstr(b"hx1")), (T.HANDLE, R.u32(2) + R.sstr(b"hx2")),
@@ -435,113 +466,120 @@ class HistState:
     pass
 
 
+def build_hist(scr, acc, hist):
+    """Run the history on a fresh server + file system; replay it through the handle model."""
+    root = scr.fresh()
+    try:
+        packets = [R.request(ALPHABET[e][1], 0x100 + i, ALPHABET[e][4]()) for i, e in enumerate(hist)]
+        ses = R.run_session(root, packets, lambda i: SPIN_BUDGET)
+        st = HistState()
+        st.ses = ses
+        st.hist = list(hist)
+        st.f_exists = os.path.exists(os.path.join(root, "f"))
+        try:
+            st.mode = os.stat(os.path.join(root, "f")).st_mode & 0o7777
+        except OSError:
+            st.mode = None
+    finally:
+        scr.drop(root)
+    acc.validated += 1
+    model = T.HandleModel()
+    st.parsed = []
+    st.valid_before = []
+    st.dir_left = {}
+    st.written = False
+    for i, e in enumerate(hist):
+        _, t, tag, h, _ = ALPHABET[e]
+        st.valid_before.append(model.valid(t, h) if h is not None and t in T.HANDLE_REQS
+                               else (h in model.files if tag == "check-file" else None))
+        rs = ses.responses[i + 1] if i + 1 < len(ses.responses) else []
+        p = None
+        if len(rs) == 1:
+            try:
+                p = T.parse_response(*rs[0])
+            except T.Malformed:
+                p = None
+        st.parsed.append(p)
+        model.observe(t, h, p)
+        if p is not None:
+            if t == T.OPENDIR and p["type"] == T.HANDLE:
+                st.dir_left[p["handle"]] = DIR_ENTRIES
+            if t == T.READDIR and p["type"] == T.NAME:
+                st.dir_left[h] = st.dir_left.get(h, 0) - len(p["names"])
+            if t == T.WRITE and p["type"] == T.STATUS and p["code"] == T.FX_OK:
+                st.written = True
+    st.model = model
+    return st
+
+
+def canon(st):
+    # everything that determines the server's future answers to the alphabet: which handle
+    # names are live and of which kind, how much of each cached directory listing is left,
+    # the number the next handle gets, the served file's existence / mode / whether its first
+    # bytes were overwritten.  next_handle is read from the real server, so a divergence between
+    # the handle model and the implementation splits states instead of hiding.
+    srv = st.ses.server
+    return (tuple(sorted(st.model.files)), tuple(sorted(st.model.dirs)),
+            tuple(sorted((k, v) for k, v in st.dir_left.items() if k in st.model.dirs)),
+            srv.next_handle, st.f_exists, st.mode, st.written, st.ses.spin_at is not None)
+
+
+def judge_transition(acc, hist, ev, st):
+    """Oracle for the last request of hist+[ev].  Returns False if the session is dead (spin)."""
+    i = len(hist)
+    label, t, tag, h, _ = ALPHABET[ev]
+    what = {"history": [ALPHABET[e][0] for e in hist], "request": label}
+    replay = {"part": "bfs", "history": list(hist) + [ev]}
+    ses = st.ses
+    handle_ok = st.valid_before[i]
+    spun = ses.spin_msg if ses.spin_at == i + 1 else None
+    rs = ses.responses[i + 1]
+    resp = judge(acc, what, t, tag, handle_ok, rs, ses.leftover[i + 1], spun, replay)
+    if resp is not None:
+        ok = judge_semantics(acc, what, t, tag, handle_ok, resp, 0x100 + i, replay)
+        if ok and handle_ok:
+            # positive half of the life-cycle: a live handle is served
+            if t == T.CLOSE and not (resp["type"] == T.STATUS and resp["code"] == T.FX_OK):
+                acc.violation("live-handle-refused:CLOSE", dict(what, response=resp), replay)
+            if t == T.READDIR:
+                left = DIR_ENTRIES - sum(len(p["names"]) for e, p in zip(hist, st.parsed)
+                                         if ALPHABET[e][1] == T.READDIR and ALPHABET[e][3] == h
+                                         and p is not None and p["type"] == T.NAME)
+                want_eof = left <= 0
+                is_eof = resp["type"] == T.STATUS and resp["code"] == T.FX_EOF
+                if want_eof != is_eof or (not want_eof and resp["type"] != T.NAME):
+                    acc.violation("readdir-listing-not-terminated-by-single-EOF",
+                                  dict(what, response=summarize(resp), entries_left=left), replay)
+            if t in (T.READ, T.FSTAT, T.WRITE) or tag == "check-file":
+                good = {T.READ: T.DATA, T.FSTAT: T.ATTRS, T.WRITE: T.STATUS}.get(t, T.EXTENDED_REPLY)
+                if resp["type"] != good or (good == T.STATUS and resp["code"] != T.FX_OK):
+                    acc.violation("live-handle-refused:%s" % T.req_name(t, tag),
+                                  dict(what, response=summarize(resp)), replay)
+    acc.nt((label, handle_ok, summarize(resp), canon(st)))
+    if len(acc.samples) < 2 and len(hist) >= 2:
+        acc.sample({"part": "bfs", "history": what["history"], "request": label,
+                    "response": summarize(resp)})
+    return spun is None
+
+
 def bfs_part(item, acc):
     tier, first, depth = item
     scr = Scratch()
 
-    def build(hist):
-        root = scr.fresh()
-        try:
-            packets = [R.request(ALPHABET[e][1], 0x100 + i, ALPHABET[e][4]()) for i, e in enumerate(hist)]
-            ses = R.run_session(root, packets, lambda i: SPIN_BUDGET)
-            st = HistState()
-            st.ses = ses
-            st.hist = list(hist)
-            srv = ses.server
-            st.f_exists = os.path.exists(os.path.join(root, "f"))
-            try:
-                st.mode = os.stat(os.path.join(root, "f")).st_mode & 0o7777
-            except OSError:
-                st.mode = None
-        finally:
-            scr.drop(root)
-        acc.validated += 1
-        # replay the history through the handle reference model
-        model = T.HandleModel()
-        st.parsed = []
-        st.valid_before = []
-        st.dir_left = {}
-        st.written = False
-        for i, e in enumerate(hist):
-            _, t, tag, h, _ = ALPHABET[e]
-            st.valid_before.append(model.valid(t, h) if h is not None and t in T.HANDLE_REQS
-                                   else (h in model.files if tag == "check-file" else None))
-            rs = ses.responses[i + 1] if i + 1 < len(ses.responses) else []
-            p = None
-            if len(rs) == 1:
-                try:
-                    p = T.parse_response(*rs[0])
-                except T.Malformed:
-                    p = None
-            st.parsed.append(p)
-            model.observe(t, h, p)
-            if p is not None:
-                if t == T.OPENDIR and p["type"] == T.HANDLE:
-                    st.dir_left[p["handle"]] = DIR_ENTRIES
-                if t == T.READDIR and p["type"] == T.NAME:
-                    st.dir_left[h] = st.dir_left.get(h, 0) - len(p["names"])
-                if t == T.WRITE and p["type"] == T.STATUS and p["code"] == T.FX_OK:
-                    st.written = True
-        st.model = model
-        return st
-
-    def canon(st):
-        # everything that determines the server's future answers to the alphabet: which handle
-        # names are live and of which kind, how much of each cached directory listing is left,
-        # the number the next handle gets (= live+closed handles handed out), the served file's
-        # existence / mode / whether its first bytes were overwritten.  The server's real tables
-        # are included as well, so a divergence between model and implementation splits states.
-        srv = st.ses.server
-        return (tuple(sorted(st.model.files)), tuple(sorted(st.model.dirs)),
-                tuple(sorted((k, v) for k, v in st.dir_left.items() if k in st.model.dirs)),
-                srv.next_handle, st.f_exists, st.mode, st.written, st.ses.spin_at is not None)
-
     def on_transition(hist, ev, st):
         acc.ev()
         acc.transitions += 1
-        i = len(hist)
-        label, t, tag, h, _ = ALPHABET[ev]
-        what = {"history": [ALPHABET[e][0] for e in hist], "request": label}
-        replay = {"part": "bfs", "history": list(hist) + [ev]}
-        ses = st.ses
-        handle_ok = st.valid_before[i]
-        spun = ses.spin_msg if ses.spin_at == i + 1 else None
-        rs = ses.responses[i + 1]
-        resp = judge(acc, what, t, tag, handle_ok, rs, ses.leftover[i + 1], spun, replay)
-        if resp is not None:
-            ok = judge_semantics(acc, what, t, tag, handle_ok, resp, 0x100 + i, replay)
-            if ok and handle_ok:
-                # positive half of the life-cycle: a live handle is served
-                if t == T.CLOSE and not (resp["type"] == T.STATUS and resp["code"] == T.FX_OK):
-                    acc.violation("live-handle-refused:CLOSE", dict(what, response=resp), replay)
-                if t == T.READDIR:
-                    left = DIR_ENTRIES - sum(len(p["names"]) for e, p in zip(hist, st.parsed)
-                                             if ALPHABET[e][1] == T.READDIR and ALPHABET[e][3] == h
-                                             and p is not None and p["type"] == T.NAME)
-                    want_eof = left <= 0
-                    is_eof = resp["type"] == T.STATUS and resp["code"] == T.FX_EOF
-                    if want_eof != is_eof or (not want_eof and resp["type"] != T.NAME):
-                        acc.violation("readdir-listing-not-terminated-by-single-EOF",
-                                      dict(what, response=summarize(resp), entries_left=left), replay)
-        acc.nt((label, handle_ok, summarize(resp), canon(st)))
-        if len(acc.samples) < 2 and len(hist) >= 2:
-            acc.sample({"part": "bfs", "history": what["history"], "request": label,
-                        "response": summarize(resp)})
-        return spun is None
+        return judge_transition(acc, hist, ev, st)
 
     try:
-        res = bfs.bfs(build, lambda st, hist: range(len(ALPHABET)), canon, on_transition,
-                      max_depth=depth, initial=[first] if first is not None else [])
+        res = bfs.bfs(lambda hist: build_hist(scr, acc, hist), lambda st, hist: range(len(ALPHABET)),
+                      canon, on_transition, max_depth=depth,
+                      initial=[first] if first is not None else [])
         acc.states += res.states
         acc.cmax("max_bfs_depth", res.max_depth + (1 if first is not None else 0))
         acc.count("bfs_frontier_left_at_depth_cap", res.frontier_left)
     finally:
         scr.close()
-
-
-def bfs_root(acc):
-    """Depth-1 transitions from the empty history (each first request judged once)."""
-    bfs_part(("", None, 1), acc)
 
 
 # ------------------------------------------------------------------------------------------------
@@ -655,6 +693,7 @@ def do_step(client, files, step, i):
         g = files.get("g")
         if g is None:
             g = files["g"] = client.open("g", "r")
+            g._prefetch_lock = R.FairLock()   # fair scheduling for _async_response's busy-wait
             g.prefetch()
         g.read(3)
     elif step == "close":
@@ -758,7 +797,7 @@ def server_half(ck, tier):
     items = grid_items()
     acc = core.pmap(enum.chunks(items, 64), run_grid_chunk)
     ck.merge(acc)
-    depth = 3 if tier == "quick" else 4
+    depth = 5 if tier == "quick" else 7
     parts = [(tier, None, 1)] + [(tier, e, depth - 1) for e in range(len(ALPHABET))]
     acc2 = core.pmap(parts, bfs_part)
     ck.merge(acc2)
@@ -792,28 +831,40 @@ def main(tier):
 def replay(rec):
     r = rec["replay"]
     acc = core.Acc()
+    if r["part"] == "client":
+        base = tempfile.mkdtemp(prefix="c30c-", dir="/dev/shm")
+        try:
+            info = {}
+            ex = explore.replay(make_body(r["prog"], base, info), r["choices"], "delay",
+                                {"record_trace": True})
+        finally:
+            shutil.rmtree(base, ignore_errors=True)
+        print("program:", r["prog"])
+        print("recv_ready() answers:", info.get("polls"), " steps completed:", info.get("done"))
+        print("outcome:", ex.outcome, "| blocked threads:", ex.deadlock_info)
+        if ex.outcome in ("deadlock", "livelock"):
+            print("main thread waits in:", hang_site(ex.error))
+            return 1 if rec["key"] == "client-blocks-forever:%s" % hang_site(ex.error) else 0
+        return 0
     scr = Scratch()
     try:
         if r["part"] == "probe":
             body = bytes.fromhex(r["body"])
-            root = scr.fresh()
-            pre = prelude()
-            pre[3] = R.request(T.CLOSE, 4, R.sstr(b"hx3"))
-            ses = R.run_session(root, pre + [R.request(r["type"], PROBE_ID, body),
-                                             R.request(T.STAT, TRAIL_ID, R.sstr("f"))],
-                                lambda i: SPIN_BUDGET)
             print("request type", r["type"], "body", body)
-            print("responses to the request:", ses.responses[5], "spin:", ses.spin_msg)
-            print("responses to the trailing STAT:", ses.responses[6])
+            run_probe(scr, acc, r["label"], r["type"], r["tag"], r["hc"], None, body_override=body,
+                      argclass=r["argclass"])
         else:
             hist = r["history"]
-            root = scr.fresh()
-            packets = [R.request(ALPHABET[e][1], 0x100 + i, ALPHABET[e][4]()) for i, e in enumerate(hist)]
-            ses = R.run_session(root, packets, lambda i: SPIN_BUDGET)
+            st = build_hist(scr, acc, hist)
             for i, e in enumerate(hist):
-                print(ALPHABET[e][0], "->", ses.responses[i + 1])
-            print("spin:", ses.spin_msg)
+                print(ALPHABET[e][0], "->", st.ses.responses[i + 1])
+            print("spin:", st.ses.spin_msg)
+            judge_transition(acc, hist[:-1], hist[-1], st)
     finally:
         scr.close()
-    print("recorded key:", rec["key"])
-    return 1
+    for v in acc.violations:
+        print(v["key"])
+        print(v["detail"])
+    if not acc.violations:
+        print("request is answered correctly")
+    return 1 if any(v["key"] == rec["key"] for v in acc.violations) else 0
